@@ -251,7 +251,15 @@ theorem frame (beh : Beh) : ∀ fuel,
       intro st s d wf hd hl
       unfold createInstance
       split
-      · exact setInstance_ext st s d d.ident _ hl
+      next v _ =>
+        simp only []
+        have h1 := setInstance_ext st s d d.ident (.inst v) hl
+        split
+        · exact h1
+        · refine h1.trans (shareAll_ext s d.id _ _ _ ?_)
+          intro sd hsd
+          obtain ⟨sid, hsid, hf⟩ := List.mem_filterMap.1 hsd
+          rw [wf.sibLife d hd sid hsid sd hf]; exact hl
       · simp only []
         have hA := ihA st s d.deps [] wf
         generalize buildArgs beh f st s d.deps [] = ra at hA
